@@ -96,6 +96,8 @@ int rstr_find(struct rstr *rs, char *s, int n, int *grps, int flg)
 	for (r = beg; r <= end; r++) {
 		if ((((unsigned char) *r) & 0xc0) == 0x80)	/* inside a character */
 			continue;
+		if ((((unsigned char) r[len]) & 0xc0) == 0x80)	/* ends inside a character */
+			continue;
 		if (rs->wbeg && ((r > s && isword(r - 1)) || !isword(r)))
 			continue;
 		if (rs->wend && r[len] && (r + len == s || !isword(r + len - 1) || isword(r + len)))
